@@ -346,9 +346,9 @@ func describeTier(o vh.Opts) string { return fmt.Sprintf("tier=%s seed=%d", o.Ti
 // values that are easily confused by a value comparison
 
 func dec(d int64, p uint32) ValJ { return ValJ{K: "decimal", I: d, Prec: p} }
-func ll(vs ...ValJ) ValJ        { return ValJ{K: "leaflist", L: vs} }
-func f32(b uint32) ValJ         { return ValJ{K: "float", Bits: uint64(b)} }
-func f64(b uint64) ValJ         { return ValJ{K: "double", Bits: b} }
+func ll(vs ...ValJ) ValJ         { return ValJ{K: "leaflist", L: vs} }
+func f32(b uint32) ValJ          { return ValJ{K: "float", Bits: uint64(b)} }
+func f64(b uint64) ValJ          { return ValJ{K: "double", Bits: b} }
 
 var lookAlike = [][]ValJ{
 	// decimals: re-scaled encodings of one number, same digits other precision
@@ -442,6 +442,108 @@ func mixedCase(r *vh.Rand) *Case {
 	return c
 }
 
+// ---------------------------------------------------------------------------
+// C02: index paths with literal "*" elements and other glob-looking names
+// (a list key VALUE "*", an element NAMED "*"): Add stores them as ordinary
+// nodes; only Query and the delete family read "*" as a glob.
+
+func starCase(r *vh.Rand) *Case {
+	c := &Case{Family: "star-names", Targets: []string{"t"}, Cfg: CfgJ{EventDriven: r.Chance(1, 2)}}
+	if r.Chance(1, 3) {
+		c.Cfg.Thr = 2
+	}
+	type lf struct {
+		pe, se []ElemJ
+	}
+	leaves := []lf{
+		{elems("a"), elems("*")}, // element named "*"
+		{elems("a"), elems("b")}, // its sibling
+		{nil, []ElemJ{{Name: "i", Keys: map[string]string{"name": "*"}}, {Name: "s"}}}, // key value "*": index i/*/s
+		{nil, []ElemJ{{Name: "i", Keys: map[string]string{"name": "e0"}}, {Name: "s"}}},
+		{elems("*"), elems("b")},      // first element "*"
+		{elems("a"), elems("*", "c")}, // "*" in the middle
+		{elems("a"), elems("**")},
+		{elems("a"), elems("?")},
+	}
+	n := 3 + r.Intn(9)
+	for i := 0; i < n; i++ {
+		l := leaves[r.Pick(6, 3, 5, 2, 3, 3, 1, 1)]
+		ts := int64(1 + r.Intn(4))
+		now := []int64{0, 1, 3}[r.Intn(3)]
+		switch r.Pick(12, 3) {
+		case 0:
+			c.Ops = append(c.Ops, Op{K: "upd", Now: now, N: &NotiJ{TS: ts, Prefix: &PathJ{Target: "t", Elems: l.pe},
+				Upd: []UpdJ{{Path: &PathJ{Elems: l.se}, Val: ival(int64(1 + r.Intn(2)))}}}})
+		default:
+			q := [][]string{{"a", "*"}, {"a", "b"}, {"*"}, {"i", "*", "s"}, {"i", "e0"}, {"*", "b"}, {"a", "*", "c"}, {"a"}}[r.Intn(8)]
+			c.Ops = append(c.Ops, Op{K: "upd", Now: now, N: delN(ts, pfx("t"), pth(q...))})
+		}
+	}
+	return c
+}
+
+// extremeTsCase: negative (pre-epoch) timestamps and timestamps next to
+// MinInt64 / MaxInt64, in pairs on one leaf: every comparison of the
+// discipline between timestamps more than 2^63 apart.
+func extremeTsCase(r *vh.Rand) *Case {
+	c := &Case{Family: "extreme-ts", Targets: []string{"t"}, Cfg: CfgJ{EventDriven: r.Chance(1, 2)}}
+	if r.Chance(1, 4) {
+		c.Cfg.Thr = 2
+	}
+	const maxI, minI = int64(9223372036854775807), int64(-9223372036854775808)
+	pool := []int64{maxI, maxI - 1, maxI - 1000, minI, minI + 1, minI + 1000, -(1 << 62), 1 << 62, -1, 0, 1, -1700000000000000000, 1700000000000000000}
+	n := 3 + r.Intn(7)
+	for i := 0; i < n; i++ {
+		ts := pool[r.Intn(len(pool))]
+		leaf := []string{"b", "c"}[r.Pick(4, 1)]
+		now := []int64{0, 3, -5, 1700000000000000000}[r.Pick(4, 2, 1, 1)]
+		switch r.Pick(10, 3, 1) {
+		case 0:
+			c.Ops = append(c.Ops, Op{K: "upd", Now: now, N: updN(ts, pfx("t", "a"), pth(leaf), ival(int64(1+r.Intn(2))))})
+		case 1:
+			c.Ops = append(c.Ops, Op{K: "upd", Now: now, N: delN(ts, pfx("t", "a"), pth([]string{leaf, "*"}[r.Intn(2)]))})
+		default:
+			c.Ops = append(c.Ops, Op{K: "upd", Now: now, N: &NotiJ{TS: ts, Prefix: pfx("t", "a"), Upd: []UpdJ{{Path: pth("b"), Val: ival(1)}, {Path: pth("c"), Val: ival(2)}}}})
+		}
+	}
+	return c
+}
+
+// subscribedCase (C03): the change feed is consumed, beside the recording
+// callback, by a real subscribe.Server with one or two STREAM subscribers whose
+// Send is held while several updates of one leaf arrive (they coalesce: duplicate
+// count > 0) and then released; identical re-deliveries follow.
+func subscribedCase(r *vh.Rand) *Case {
+	c := &Case{Family: "subscribed", Targets: []string{"t"}, Subs: 1 + r.Intn(2), Cfg: CfgJ{EventDriven: r.Chance(1, 2)}}
+	ts := int64(1)
+	upd := func(leaf string) Op {
+		ts += int64(r.Intn(2))
+		return Op{K: "upd", N: updN(ts, pfx("t", "a"), pth(leaf), ival(int64(1+r.Intn(3))))}
+	}
+	for i, k := 0, r.Intn(3); i < k; i++ {
+		c.Ops = append(c.Ops, upd([]string{"b", "c"}[r.Intn(2)]))
+	}
+	cycles := 1 + r.Intn(2)
+	for cy := 0; cy < cycles; cy++ {
+		c.Ops = append(c.Ops, Op{K: "hold"})
+		var last Op
+		for i, k := 0, 2+r.Intn(4); i < k; i++ {
+			last = upd([]string{"b", "b", "c"}[r.Intn(3)])
+			c.Ops = append(c.Ops, last)
+		}
+		if r.Chance(1, 4) {
+			c.Ops = append(c.Ops, Op{K: "upd", N: delN(ts+1, pfx("t", "a"), pth("c"))})
+		}
+		c.Ops = append(c.Ops, Op{K: "release"})
+		// the last notification again, unchanged: identical at the same timestamp
+		c.Ops = append(c.Ops, Op{K: "upd", N: last.N})
+		if r.Chance(1, 2) {
+			c.Ops = append(c.Ops, upd("b"))
+		}
+	}
+	return c
+}
+
 func checkLib() string {
 	if prop == "c03" {
 		return "Cache.C03Check"
@@ -456,7 +558,7 @@ func ruleText() string {
 	return "corpus cases; every history of 1..D calls (D=3 quick, 4 thorough) over {update v in {1,2} at ts in {1,2,3}, delete at ts in {1,2,3}} on one leaf, " +
 		"event-driven on; seeded random histories of 2..25 calls (single/multi/atomic/delete/empty notifications over index paths a/b a/c a/b/c a d[k]/e f with prefix/path splits, " +
 		"timestamps mostly in 1..4, clock in {0,1,3}, threshold in {0,2}, occasional Reset/Remove/Add, metadata paths, unknown targets); " +
-		"future-guard histories (threshold 2/3/-1, ts in -1..8, clock in 0..6); look-alike value histories (per leaf, successive updates from one pool of easily confused values of every TypedValue arm, non-decreasing timestamps); mixed elem/element encodings with siblings followed by deletes and Reset. distinct = distinct (config, targets, calls); " +
+		"future-guard histories (threshold 2/3/-1, ts in -1..8, clock in 0..6); look-alike value histories (per leaf, successive updates from one pool of easily confused values of every TypedValue arm, non-decreasing timestamps); mixed elem/element encodings with siblings followed by deletes and Reset; index paths with literal \"*\" elements, key values \"*\" and other glob-looking names updated repeatedly and deleted by glob; timestamps next to MinInt64/MaxInt64 and negative ones in pairs on one leaf. distinct = distinct (config, targets, calls); " +
 		"non-trivial = some call was rejected as stale/future (also inside a multi notification) or some delete removed a leaf"
 }
 
@@ -466,7 +568,8 @@ const c03Rule = "corpus cases (witnesses of the two defects and of the path-orig
 	"aliasing histories (2..4 leaves written through one shared prefix object with 1..3 spare slots, then subtree / wildcard / single deletes and Reset); " +
 	"atomic<->scalar histories on one index path with equal and different first values, event-driven on and off; " +
 	"look-alike value histories (per leaf, successive updates from one pool of easily confused values: re-scaled decimals, decimals collapsing in float32/float64, leaf-lists that are prefixes of each other / differ in the last element / nested, the same number as int/uint/string/bytes/json/ascii/decimal/float/double, float vs double, +0/-0, NaN, near-equal strings); " +
-	"mixed elem/element encodings of prefix and path with siblings, then subtree / wildcard / leaf deletes and Reset. " +
+	"mixed elem/element encodings of prefix and path with siblings, then subtree / wildcard / leaf deletes and Reset; " +
+	"extreme timestamps; histories whose feed is also consumed by a real subscribe.Server with 1-2 gated STREAM subscribers (held while updates of one leaf coalesce, released, identical re-delivery), inputs compared with their deep copies after every call and after the release. " +
 	"distinct = distinct (config, targets, calls); non-trivial = the callback received at least one update and one delete notification, or an accepted update was withheld"
 
 func generate(e *emitter, o vh.Opts) {
@@ -496,8 +599,16 @@ func generate(e *emitter, o vh.Opts) {
 		e.add(futureCase(r.Fork()))
 	}
 	nval, nmix := 700, 200
+	nstar, next := 500, 400
 	if o.Thorough() {
 		nval, nmix = 10000, 3000
+		nstar, next = 8000, 6000
+	}
+	for i := 0; i < nstar; i++ {
+		e.add(starCase(r.Fork()))
+	}
+	for i := 0; i < next; i++ {
+		e.add(extremeTsCase(r.Fork()))
 	}
 	for i := 0; i < nval; i++ {
 		e.add(valueCase(r.Fork()))
@@ -638,8 +749,16 @@ func generateC03(e *emitter, o vh.Opts) {
 		e.add(atomicScalarCase(r.Fork()))
 	}
 	nval, nmix := 800, 400
+	nsub, next := 250, 200
 	if o.Thorough() {
 		nval, nmix = 12000, 6000
+		nsub, next = 2500, 3000
+	}
+	for i := 0; i < next; i++ {
+		e.add(extremeTsCase(r.Fork()))
+	}
+	for i := 0; i < nsub; i++ {
+		e.add(subscribedCase(r.Fork()))
 	}
 	for i := 0; i < nval; i++ {
 		e.add(valueCase(r.Fork()))
